@@ -234,10 +234,11 @@ pub mod ndt {
         { unimplemented!() }
     }
     impl<'a, T> ArrayView2<'a, T> {
-        /// `ArrayView2::from_shape((r, c), slice)`: Ok iff the slice has r*c elements; row-major
+        /// `ArrayView2::from_shape((r, c), slice)`: Err iff the slice has fewer than r*c elements (a longer slice is accepted and
+        /// its first r*c elements are viewed); row-major
         #[verifier::external_body]
         pub fn from_shape(shape: (usize, usize), s: &'a [T]) -> (r: Result<ArrayView2<'a, T>, ShapeError>)
-            ensures (r is Ok) == (shape.0 * shape.1 == s@.len()),
+            ensures (r is Ok) == (shape.0 * shape.1 <= s@.len()),
                 r is Ok ==> v2(r->Ok_0).len() == shape.0 && forall |i: int| 0 <= i < shape.0 ==> (#[trigger] v2(r->Ok_0)[i]).len() == shape.1,
                 r is Ok ==> v2(r->Ok_0) == Seq::new(shape.0 as nat, |i: int| Seq::new(shape.1 as nat, |j: int| s@[i * shape.1 + j])),
                 // (row-major positions are positions of the slice: 0 <= i*c + j < r*c)
